@@ -1,11 +1,182 @@
 package c20
 
 import (
+	"context"
+	"fmt"
 	"math/rand"
+	"time"
 
+	corev1 "k8s.io/api/core/v1"
+	metav1 "k8s.io/apimachinery/pkg/apis/meta/v1"
+	"k8s.io/apimachinery/pkg/types"
+
+	v1 "sigs.k8s.io/karpenter/pkg/apis/v1"
+	"sigs.k8s.io/karpenter/pkg/controllers/nodepool/registrationhealth"
+	"sigs.k8s.io/karpenter/pkg/state/nodepoolhealth"
+
+	"verif/gen"
 	"verif/mon"
+	"verif/world"
 )
 
+// runE2E: the NodeRegistrationHealthy condition written by the real registration / liveness / registrationhealth
+// code paths is compared with the reference window after every recorded launch outcome, reset and restart.
 func runE2E(r *mon.Report, tier string, idx int, rng *rand.Rand) {
 	r.Eval()
+	e := world.NewEnv(rng)
+	its, _ := gen.Catalog(rng, gen.CatalogCfg{MinTypes: 3, MaxTypes: 4, PUnavailable: 0}, "")
+	e.Provider.Default = its
+	e.Provider.Policy = "cheapest"
+	e.Apply(gen.NodeClass())
+	np := gen.NodePool(rng, "pool", gen.PoolCfg{})
+	e.Apply(np)
+	health := func() *registrationhealth.Controller {
+		return registrationhealth.NewController(e.Clock, e.API.Client, e.Provider, e.NPHealth)
+	}
+	reconcileHealth := func() {
+		cur := &v1.NodePool{}
+		if e.API.Raw.Get(context.Background(), types.NamespacedName{Name: "pool"}, cur) == nil {
+			_, _ = health().Reconcile(e.Ctx, cur)
+		}
+	}
+	reconcileHealth() // first reconcile: condition Unknown, window empty
+	cond := func() string {
+		cur := &v1.NodePool{}
+		_ = e.API.Raw.Get(context.Background(), types.NamespacedName{Name: "pool"}, cur)
+		c := cur.StatusConditions().Get(v1.ConditionTypeNodeRegistrationHealthy)
+		if c == nil {
+			return "nil"
+		}
+		return string(c.Status)
+	}
+	var w window
+	expect := cond()
+	ops := ""
+	n := 6 + rng.Intn(14)
+	seq := 0
+	cleanup := func() {
+		ncs := &v1.NodeClaimList{}
+		_ = e.API.Raw.List(context.Background(), ncs)
+		for i := range ncs.Items {
+			nc := &ncs.Items[i]
+			e.Provider.Vanish(nc.Status.ProviderID)
+			nc.Finalizers = nil
+			_ = e.API.Raw.Update(context.Background(), nc)
+			_ = e.API.Raw.Delete(context.Background(), nc)
+		}
+		nodes := &corev1.NodeList{}
+		_ = e.API.Raw.List(context.Background(), nodes)
+		for i := range nodes.Items {
+			nd := &nodes.Items[i]
+			nd.Finalizers = nil
+			_ = e.API.Raw.Update(context.Background(), nd)
+			_ = e.API.Raw.Delete(context.Background(), nd)
+		}
+		pods := &corev1.PodList{}
+		_ = e.API.Raw.List(context.Background(), pods)
+		for i := range pods.Items {
+			_ = e.API.Raw.Delete(context.Background(), &pods.Items[i])
+		}
+		_ = e.SyncState()
+	}
+	newClaim := func() string {
+		seq++
+		e.Apply(gen.Pod(fmt.Sprintf("p%d", seq), 100, 64))
+		_ = e.SyncState()
+		res, err := e.Prov.Schedule(e.Ctx)
+		if err != nil || len(res.NewNodeClaims) == 0 {
+			return ""
+		}
+		name, err := e.Prov.Create(e.Ctx, res.NewNodeClaims[0])
+		if err != nil {
+			return ""
+		}
+		return name
+	}
+	for i := 0; i < n; i++ {
+		op := []int{opSuccess, opSuccess, opFailure, opFailure, opFailure, opResetUnknown, 5}[rng.Intn(7)]
+		switch op {
+		case opSuccess, opFailure:
+			name := newClaim()
+			if name == "" {
+				r.Inconcl("e2e: could not create a NodeClaim")
+				return
+			}
+			if op == opSuccess {
+				if _, _, err := e.DriveClaim(name, world.StageRegistered); err != nil {
+					r.Inconcl("e2e: registration did not complete: %v", err)
+					return
+				}
+				ops += "S"
+			} else {
+				if _, _, err := e.DriveClaim(name, world.StageLaunched); err != nil {
+					r.Inconcl("e2e: launch did not complete: %v", err)
+					return
+				}
+				e.Clock.Step(16 * time.Minute) // registration timeout is 15 min
+				_, _ = e.ReconcileClaim(name)
+				ops += "F"
+			}
+			w = w.apply(op)
+			r.Inc("e2e_outcomes_recorded")
+			// the statement: recording a failure sets False exactly when failures then fill >= half the window, recording a
+			// success sets True exactly when they fill less than half; otherwise the condition is left as it was
+			st := w.status()
+			if op == opFailure && st == nodepoolhealth.StatusUnhealthy {
+				expect = "False"
+			}
+			if op == opSuccess && st == nodepoolhealth.StatusHealthy {
+				expect = "True"
+			}
+			// the in-memory tracker must agree with the reference
+			cur := &v1.NodePool{}
+			_ = e.API.Raw.Get(context.Background(), types.NamespacedName{Name: "pool"}, cur)
+			if got := e.NPHealth.Status(cur.UID); got != st {
+				r.Violate("e2e-tracker-vs-window", fmt.Sprintf("after %s the tracker reports %d but the last-4 window %q implies %d", ops, got, w.String(), st), map[string]any{"ops": ops}, nil)
+				return
+			}
+			cleanup()
+		case opResetUnknown:
+			// a NodePool spec change: the registrationhealth controller resets the window and sets Unknown
+			cur := &v1.NodePool{}
+			_ = e.API.Raw.Get(context.Background(), types.NamespacedName{Name: "pool"}, cur)
+			if cur.Spec.Template.Labels == nil {
+				cur.Spec.Template.Labels = map[string]string{}
+			}
+			cur.Spec.Template.Labels["rev"] = fmt.Sprint(i)
+			e.Apply(cur)
+			reconcileHealth()
+			w = window{}
+			expect = "Unknown"
+			ops += "U"
+			r.Inc("e2e_resets")
+		default:
+			// controller restart: the tracker is rebuilt empty and re-hydrated from the stored condition
+			e.Restart()
+			_ = e.SyncState()
+			reconcileHealth()
+			switch expect {
+			case "True":
+				w = window{true}
+			case "False":
+				w = window{false, false}
+			default:
+				w = window{}
+			}
+			ops += "R"
+			r.Inc("e2e_restarts")
+		}
+		r.Inc("e2e_condition_checks")
+		if got := cond(); got != expect {
+			key := "e2e-condition-vs-window"
+			r.Violate(key, fmt.Sprintf("after %s the NodePool condition NodeRegistrationHealthy=%s but the reference window %q implies %s", ops, got, w.String(), expect), map[string]any{"ops": ops}, map[string]any{"got": got, "want": expect})
+			return
+		}
+	}
+	r.Sig("e2e-len%d-%s", len(ops)/4, ops[:min(len(ops), 6)])
+	if r.WantSample() {
+		r.Sample(map[string]any{"kind": "e2e", "ops": ops, "alphabet": "S=claim registered F=registration timeout U=NodePool spec change R=controller restart", "final_condition": expect})
+	}
 }
+
+var _ = metav1.Now
